@@ -318,6 +318,11 @@ func (r *c01Runner) Step(t []string, raw string) string {
 		return "err translate:nil-statement"
 	}
 	r.stats.Inc("translated")
+	if _, _, outOfRange := rangesFromTextR(q); outOfRange {
+		// a variable-length bound that is no int64: the reference refuses the query (harness/sortdir.go), the translator accepted it
+		r.stats.Inc("range_bound_out_of_range_accepted")
+		return "range-differs bound-out-of-range-accepted"
+	}
 	sql, ferr := translate.Translated(res)
 	if ferr != nil {
 		r.stats.Inc("format_err")
